@@ -275,3 +275,20 @@ def payload_of(x):
     """the str payload of an AnsiStr: what str.__str__, '%s' % x, print and file.write see (engine twin: the
     payload the interpreter stored at str.__new__)"""
     return str.__str__(x)
+
+
+def eq_table(f, g):
+    """equality of two tables with settings compared by text (what AnsiString.__eq__ compares)"""
+    if len(f) != len(g):
+        return False
+    for key in f:
+        if key not in g:
+            return False
+        if texts(f[key].add) != texts(g[key].add) or texts(f[key].rem) != texts(g[key].rem):
+            return False
+    return True
+
+
+def eq_value(v, w):
+    """two independently built values are equal: same text, equal tables (settings by text)"""
+    return v._s == w._s and eq_table(v._fmts, w._fmts)
